@@ -447,7 +447,7 @@ class SortedIntSet(DocIdSet):
 
     def __init__(self, source=None, typecode="I"):
         if source:
-            self.data = array(typecode, sorted(source))
+            self.data = array(typecode, sorted(set(source)))
         else:
             self.data = array(typecode)
         self.typecode = typecode
